@@ -1,6 +1,7 @@
 """C19 — child output streaming (no loss, no reordering, no deadlock) and chunking-independent writers."""
 import json
 import os
+import shutil
 import subprocess
 from concurrent.futures import ThreadPoolExecutor
 
@@ -103,7 +104,9 @@ def run_stream_case(arg):
     req = {"script": case["script"], "child": os.path.join(vp.BIN, "vpchild"), "writer": case["writer"], "api": case["api"],
            "pidfile": pidfile, "watchdog_ms": case.get("watchdog_ms", 10000)}
     try:
-        p = subprocess.run([os.path.join(vp.BIN, "vpmon"), "streams", json.dumps(req)], stdout=subprocess.PIPE, stderr=subprocess.PIPE, timeout=120, env=dict(os.environ, **vp.hostile_env()))
+        # (every fourth case on a single CPU: `taskset -c 0` - the number of CPUs a process may use is no reason to read one stream after the other)
+        one_cpu = ["taskset", "-c", "0"] if idx % 4 == 0 and shutil.which("taskset") else []
+        p = subprocess.run(one_cpu + [os.path.join(vp.BIN, "vpmon"), "streams", json.dumps(req)], stdout=subprocess.PIPE, stderr=subprocess.PIPE, timeout=120, env=dict(os.environ, **vp.hostile_env()))
     except subprocess.TimeoutExpired:
         return case, {"harness_timeout": True}
     finally:
